@@ -20,7 +20,7 @@ ASSUMPTIONS = ["counting reference vf/refcal.py (add_bdays, bdays_between, n_of_
                "indices beyond the month's number of business days are 'fixed up' by design and not asserted"]
 
 KB = list(range(1, 31)) + list(range(250, 263)) + list(range(1300, 1311))
-REPS = ["ymd", "yd", "ymcw", "ywd", "ldn", "mdn", "bizda"]
+REPS = ["ymd", "yd", "ymcw", "ywd", "ldn", "mdn", "bizda", "epoch"]
 
 
 def plan(ctx):
@@ -39,6 +39,8 @@ def _exp(rep):
         lo, hi = n - abs(k) * 2 - 10, n + abs(k) * 2 + 10
         if lo < R.NMIN or hi > R.NMAX:
             return None
+        if rep in ("epoch", "ldn", "mdn") and max(n, R.add_bdays(n, k)) >= TAIL0:
+            return None     # day numbers in the last 606 days: C01's recorded finding
         return mk(R.add_bdays(n, k))
     return f
 
